@@ -87,9 +87,12 @@ fn logging_checker(
         let mut y = Vec::new();
         a.read_to_end(&mut x)?;
         b.read_to_end(&mut y)?;
-        log.lock().unwrap().push(json!([decode(&x, chunk), decode(&y, chunk)]));
+        let (dx, dy) = (decode(&x, chunk), decode(&y, chunk));
+        // equality up to the writer tag, which identifies the copy (level) in the log
+        let same = dx["kind"] == dy["kind"] && dx["key"] == dy["key"] && dx["val"] == dy["val"] && dx["chunks"] == dy["chunks"] && dx["of"] == dy["of"];
+        log.lock().unwrap().push(json!([dx, dy]));
         phase("lib");
-        if x == y {
+        if same {
             Ok(())
         } else {
             Err(std::io::Error::new(std::io::ErrorKind::Other, "mismatch"))
@@ -261,7 +264,8 @@ fn run_op(h: &Handle, op: &Value, ctx: &Ctx) -> Outcome {
     let val = op["val"].as_str().unwrap_or("v");
     let chunks = op["chunks"].as_u64().unwrap_or(1) as u32;
     let chunk = ctx.chunk;
-    let pid = ctx.pid;
+    // writer tag of the values this operation writes (default: the participant id)
+    let pid = op["w"].as_u64().map(|x| x as u32).unwrap_or(ctx.pid);
     match api {
         "get" => {
             phase("lib");
